@@ -32,6 +32,11 @@ def connrun(pid, tier, seed, replay):
             c08.satellite(v, pid, tier, seed, replay_scn=rep["streamsrv_scenario"])
             v.cov["evaluations"], v.cov["distinct_nontrivial"] = 1, 1
             return v.finish()
+        if "httpclose_scenario" in rep:
+            import httpclose
+            httpclose.satellite(v, pid, tier, seed, replay_scn=rep["httpclose_scenario"])
+            v.cov["evaluations"], v.cov["distinct_nontrivial"] = 1, 1
+            return v.finish()
         if "ssesat_scenario" in rep:
             import ssesat
             ssesat.satellite(v, pid, tier, seed, replay_scn=rep["ssesat_scenario"])
@@ -146,6 +151,14 @@ def connrun(pid, tier, seed, replay):
             from checks import c08
             c08.satellite(v, pid, tier, seed)
             v.cov["rule"] += "; plus the streamable-HTTP server transport: gated races, a transition-cover sample of the StreamSrv.tla seam graph and seeded random scenarios on a real StreamableHTTPHandler, judged by the %s clauses of StreamSrvMon" % pid
+        if pid == "C05":
+            import httpclose
+            htr = httpclose.satellite(v, pid, tier, seed)
+            v.cov["evaluations"] += sum(len(httpclose.steps_of_trace(t)) for (_, _, t) in htr)
+            v.cov["distinct_nontrivial"] += len(htr)
+            v.cov["rule"] += ("; plus the streamable-HTTP shutdown machinery (HttpClose.tla): transition cover of its seam graphs, -simulate "
+                              "histories, hand-written races and seeded random scripts on a real Client/StreamableClientTransport against a "
+                              "real Server/StreamableHTTPHandler, judged by the C05.Http* clauses of HttpCloseMon")
         if pid in ("C01", "C02", "C03", "C05"):
             # the legacy HTTP+SSE transport (SSESat.tla): the exhaustive design runs belong to C01 / C05 in the quick tier
             import ssesat
